@@ -1285,8 +1285,15 @@ impl Interpreter {
             if self.active_vm.is_none()
                 && let Some(program) = self.pending_program.take()
             {
-                // Try to set up the VM from the pending program
-                let setup_result = self.setup_vm_from_program(program)?;
+                // Try to set up the VM from the pending program. A failure on the way (a
+                // dependency whose body throws) ends the run: what it left behind goes with it
+                let setup_result = match self.setup_vm_from_program(program) {
+                    Ok(result) => result,
+                    Err(e) => {
+                        self.abort_active_execution();
+                        return Err(e);
+                    }
+                };
                 if !matches!(setup_result, StepResult::Continue) {
                     // Still needs imports or other action
                     return Ok(setup_result);
